@@ -1,4 +1,5 @@
 """C20 -- triangle up-sampling tiles exactly; neighbourhoods and selections are faithful."""
+import random
 import numpy as np
 from fractions import Fraction
 from harness.common import cz, cq, cnat, cbool, clist, ctup, cres, import_aa, frac, exn_name
@@ -6,51 +7,134 @@ from harness.common import cz, cq, cnat, cbool, clist, ctup, cres, import_aa, fr
 ID = "C20"
 GEN = []
 PROPS = "Props/C20.v"
-COQ_CHECK = ("Model.C20", "check")
+COQ_CHECK = ("Model.C20x", "check")
 COQ_FALLBACK = None
 COQ_IMPORTS = ""
-SHARD = 40
-RULE = ("ArrayTriangles: random index triples over random dyadic (k/4) vertices of either sign (arbitrary, also degenerate and "
+SHARD = 80
+RULE = ("SCALE SWEEP in every stream: all lengths of a case are multiplied by a power of two 2^k, k in [-40, 40] (about a third "
+        "of the cases at k = 0), with offsets that are zero, scaled with the set, or O(1) next to a tiny side; every inexact "
+        "comparison uses a tolerance RELATIVE to the side (1e-9 * side, floored at 2^-44 * largest coordinate), every containment "
+        "decision is kept at a RELATIVE margin (1e-6 in barycentric / side units, widened by the rounding estimate of the case; "
+        "cases inside the band are skipped and counted). "
+        "ArrayTriangles: random index triples over random dyadic (k/4) vertices of either sign (arbitrary, also degenerate and "
         "repeated corners, duplicate vertex rows; a malformed stream with out-of-range index rows), connected meshes cut from a skewed lattice, and the output of "
         "ArrayTriangles.for_limits_and_scale; CoordinateArrayTriangles: random integer coordinates in [-5,5]^2 of both parities "
-        "(duplicates included), side in {1/4,1/2,1,3/2,2,3}, offsets k/4, both flip states, the output of "
-        "CoordinateArrayTriangles.for_limits_and_scale, and objects reached through up_sample()/neighborhood() chains of the real "
-        "classes. Operations: .triangles, .area, len, .up_sample(), .neighborhood(), .for_indexes (random index lists with "
+        "(duplicates included), side in {1/4,1/2,1,3/2,2,3} * 2^k, offsets, both flip states, the output of "
+        "CoordinateArrayTriangles.for_limits_and_scale, and objects reached through up_sample()/neighborhood()/for_indexes() chains of the real "
+        "classes, including chains of 10-16 consecutive up_sample() calls that follow one child cell / one child triangle (side down to "
+        "2^-16 of the start, areas below 1e-9). Operations: .triangles, .area, len, .up_sample(), .neighborhood(), .for_indexes (random index lists with "
         "repeats), .with_vertices, .vertices/.indices, .containing_indices(shape) with Point/Circle/Square/Triangle/Polygon "
-        "shapes whose reference point is placed by barycentric coordinates inside / on an edge / on a corner / outside a chosen "
-        "triangle. Comparisons: exact rationals for dyadic ArrayTriangles; 1e-9 where HEIGHT_FACTOR = sqrt(3)/2 enters; every "
-        "containment decision is kept >= 1e-6 from its boundary unless the floating-point evaluation is exact (cases inside the "
-        "band are skipped and counted). Non-trivial = at least two triangles; distinct = distinct JSON input.")
+        "shapes (sizes from 0 and 1/64 of the side upwards) whose reference point is placed by barycentric coordinates inside / on an edge / on a corner / outside a chosen "
+        "triangle. SESSIONS: one object receives 5-9 operations in a row (repeated reads, the same operation twice, two Shape objects "
+        "re-used on different triangle sets and after the object was replaced by its own up_sample()/neighborhood()/for_indexes()/"
+        "with_vertices() result, a coordinate array turned into an ArrayTriangles by with_vertices(vertices)); for ArrayTriangles the user "
+        "also edits vertices[j] = p in place between reads (area, the pooled shapes and up_sample/neighborhood/for_indexes are called "
+        "before the write and again after it; half of the writes carry away a corner of a triangle a pooled shape was just reported for); "
+        "every session contains two different shapes on one object and one shape re-used on a different set of the same length (the "
+        "selection rotated by one); with_vertices of a coordinate array is also called with vertices other than its own; "
+        "after every call the arrays handed in (indices, vertices, coordinates, the selection, "
+        "the replacement vertices) and the shape's attributes must be unchanged and a second read must equal the first. "
+        "Comparisons: exact rationals wherever every double operation is exact (checked per case by replaying the arithmetic in rationals); "
+        "Non-trivial = at least two triangles; distinct = distinct JSON input.")
 EXHAUSTIVE = {}
 TRUSTED = ["hand-written Gallina model coq/Model/C20.v of abstract.py / array.py / abstract_coordinate_array.py / "
-           "coordinate_array.py / shape.py, tied to /repo by this correspondence run (comparison evaluated inside Coq by vm_compute)",
+           "coordinate_array.py / shape.py, tied to /repo by this correspondence run (comparison evaluated inside Coq by vm_compute, coq/Model/C20x.v)",
            "numpy: vertices[indices] fancy indexing, np.unique(axis=0, return_inverse) = lexicographically sorted distinct rows + "
            "row positions, np.sort(axis=1), np.where, np.arange(start, stop, step) = start + i*step for i < ceil((stop-start)/step), "
-           "x/0 -> inf/nan whose comparisons are False",
+           "x/0 -> inf/nan whose comparisons are False, vertices[j] = p overwrites row j of the stored array",
            "HEIGHT_FACTOR is a parameter h of the model (theorems hold for every h, most need h > 0 or nothing); the run passes the "
            "exact rational value of the double 3**0.5/2",
-           "doubles: ArrayTriangles inputs are dyadic so midpoints, reflections and areas are exact; elsewhere 1e-9 tolerance"]
+           "doubles: ArrayTriangles inputs are dyadic so midpoints, reflections and areas are exact (verified per case); elsewhere a "
+           "tolerance of 1e-9 * side (at least 2^-44 * largest coordinate)"]
 ASSUMPTIONS = ["real arithmetic (no rounding); coincident corners computed along different floating-point paths may differ in the "
-               "last bit in the implementation (np.unique then keeps both): geometric comparison at 1e-9",
+               "last bit in the implementation (np.unique then keeps both): geometric comparison at 1e-9 * side",
                "NaN coordinates (the jax variants' padding) are not modelled; index arrays are in range (numpy raises IndexError "
                "otherwise) and non-negative",
-               "for_limits_and_scale (both classes) is covered by correspondence only"]
+               "for_limits_and_scale (both classes) is covered by correspondence only",
+               "CoordinateArrayTriangles caches .triangles / flip_mask / vertices (cached_property in the code as it is): in-place edits "
+               "of its coordinates are outside the property; ArrayTriangles reads its arrays on every call and is edited in place in the sessions"]
 
-_skipped = {"in_band": 0}
+_skipped = {"in_band": 0, "steps_in_band": 0}
 def extra_evidence():
-    return {"skipped_in_band": _skipped["in_band"]}
+    return {"skipped_in_band": _skipped["in_band"], "session_steps_skipped_in_band": _skipped["steps_in_band"]}
 
 SIDES = [Fraction(1, 4), Fraction(1, 2), Fraction(1), Fraction(3, 2), Fraction(2), Fraction(3)]
 MARGIN = Fraction(1, 10 ** 6)
+REL_TOL = Fraction(1, 10 ** 9)
+EPS = Fraction(1, 2 ** 50)          # a few ulps, relative
+MAXMAG = 2 ** 30                    # largest coordinate / side that the generators produce
 
 def F(s): return Fraction(s)
 def S(x): return str(Fraction(x))
 
-# ----------------------------------------------------------------------------- generators
-def rand_pt(rng, lo=-8, hi=8, den=4):
-    return [S(Fraction(rng.randint(lo, hi), den)), S(Fraction(rng.randint(lo, hi), den))]
+def rep(x):
+    """is the rational x a double?"""
+    x = Fraction(x)
+    try: return Fraction(float(x)) == x
+    except OverflowError: return False
 
-def gen_array(rng):
+def pow2_floor(x):
+    x = Fraction(x)
+    e = x.numerator.bit_length() - x.denominator.bit_length()
+    p = Fraction(2) ** e
+    while p > x: p /= 2
+    while 2 * p <= x: p *= 2
+    return p
+
+def scale_of(tris):
+    """power of two just below the largest coordinate difference inside a triangle (1 if every triangle is a point)"""
+    m = Fraction(0)
+    for t in tris:
+        for i in range(3):
+            for j in range(i + 1, 3):
+                m = max(m, abs(t[i][0] - t[j][0]), abs(t[i][1] - t[j][1]))
+    return pow2_floor(m) if m > 0 else Fraction(1)
+
+def mag_of(tris, extra=()):
+    m = Fraction(0)
+    for t in tris:
+        for v in t: m = max(m, abs(v[0]), abs(v[1]))
+    for x in extra: m = max(m, abs(Fraction(x)))
+    return m
+
+def tols_for(sc, mag):
+    """(length tolerance, squared-length tolerance of one triangle), relative to the side"""
+    tlen = max(REL_TOL * sc, Fraction(mag) / 2 ** 44)
+    return (tlen, 8 * sc * tlen + 4 * tlen * tlen)
+def ctl(tl): return ctup([cq(tl[0]), cq(tl[1])])      # replaced below once cqd is defined
+NOTL = (Fraction(0), Fraction(0))
+
+# ----------------------------------------------------------------------------- generators
+def pick_scale(rng):
+    """a third at 1; most of the rest tiny (an absolute tolerance of 1e-8 .. 1e-12 hidden in the code shows below ~2^-30)"""
+    r = rng.random()
+    if r < 0.33: k = 0
+    elif r < 0.66: k = -rng.randint(30, 40)
+    elif r < 0.80: k = -rng.randint(8, 29)
+    elif r < 0.88: k = -rng.randint(1, 7)
+    else: k = rng.randint(1, 40)
+    return Fraction(2) ** k
+
+def pick_offset(rng, sc):
+    """zero, scaled with the set, or O(1) next to a small side (largest coordinate / side stays below 2^30)"""
+    r = rng.random()
+    if r < 0.45: return [Fraction(0), Fraction(0)]
+    if r < 0.75 or sc < Fraction(1, 2 ** 24) or sc >= 1:
+        return [sc * Fraction(rng.randint(-24, 24), 4), sc * Fraction(rng.randint(-24, 24), 4)]
+    return [Fraction(rng.randint(-6, 6), 4), Fraction(rng.randint(-6, 6), 4)]
+
+def place(v, sc, off): return [S(off[0] + sc * v[0]), S(off[1] + sc * v[1])]
+
+def rand_pt(rng, lo=-8, hi=8, den=4):
+    return [Fraction(rng.randint(lo, hi), den), Fraction(rng.randint(lo, hi), den)]
+
+def gen_array(rng, sc=None, off=None):
+    if sc is None: sc = pick_scale(rng)
+    if off is None: off = pick_offset(rng, sc)
+    A = gen_unit_array(rng)
+    return {"idx": A["idx"], "verts": [place(v, sc, off) for v in A["verts"]], "sc": S(sc), "off": [S(off[0]), S(off[1])]}
+
+def gen_unit_array(rng):
     style = rng.choice(["random", "random", "mesh", "mesh", "dup", "single"])
     if style == "single":
         vs = [rand_pt(rng) for _ in range(3)]
@@ -74,7 +158,7 @@ def gen_array(rng):
         if not tris: tris.append([pid(0, 0), pid(1, 0), pid(0, 1)])
         verts = [None] * len(pts)
         for (i, j), k in pts.items():
-            verts[k] = [S(o[0] + i * u[0] + j * v[0]), S(o[1] + i * u[1] + j * v[1])]
+            verts[k] = [o[0] + i * u[0] + j * v[0], o[1] + i * u[1] + j * v[1]]
         for t in tris: rng.shuffle(t)
         return {"idx": tris, "verts": verts}
     nv = rng.randint(3, 7)
@@ -88,23 +172,29 @@ def gen_array(rng):
         else: idx.append(rng.sample(range(nv), 3))
     return {"idx": idx, "verts": vs}
 
-def gen_coord(rng):
-    n = rng.choice([1, 1, 2, 3, 4, 5, 6])
+def gen_coord(rng, sc=None, small=False):
+    if sc is None: sc = pick_scale(rng)
+    n = rng.choice([1, 1, 2, 3, 4, 5, 6]) if not small else rng.choice([1, 1, 2])
     r = rng.choice([1, 2, 5])
     coords = [[rng.randint(-r, r), rng.randint(-r, r)] for _ in range(n)]
     if n > 2 and rng.random() < 0.2: coords.append(list(coords[0]))
-    if rng.random() < 0.3:      # an edge-connected cluster
+    if rng.random() < 0.3 and not small:      # an edge-connected cluster
         x, y = coords[0]
         coords = [[x, y], [x + 1, y], [x - 1, y], [x, y + 1], [x, y - 1]][:rng.randint(2, 5)]
-    return {"coords": coords, "side": S(rng.choice(SIDES)), "xo": S(Fraction(rng.randint(-6, 6), 4)),
-            "yo": S(Fraction(rng.randint(-6, 6), 4)), "fl": rng.random() < 0.5,
-            "pre": rng.choice([[], [], [], ["up"], ["nbr"], ["up", "up"], ["up", "nbr"], ["nbr", "up"]]) if n <= 2 else
+    side = rng.choice(SIDES) * sc
+    off = pick_offset(rng, sc)
+    return {"coords": coords, "side": S(side), "xo": S(off[0]), "yo": S(off[1]), "fl": rng.random() < 0.5,
+            "pre": rng.choice([[], [], [], [], ["up"], ["nbr"], ["up", "nbr"], ["nbr", "up"]]) if n <= 2 else
                    rng.choice([[], [], [], ["nbr"]]) if n <= 4 else []}
 
-def gen_shape(rng):
-    """shape described relative to a target triangle: barycentric position of its reference point"""
+SIZES = [Fraction(0), Fraction(0), Fraction(1, 64), Fraction(1, 16), Fraction(1, 4), Fraction(1, 4), Fraction(1, 2), Fraction(3, 4),
+         Fraction(1), Fraction(3, 2), Fraction(2), Fraction(3)]
+def gen_shape(rng, inside=False):
+    """shape described relative to a target triangle: barycentric position of its reference point; sizes in units of the
+    set's scale"""
     kind = rng.choice(["point", "point", "circle", "square", "triangle", "polygon"])
-    pos = rng.choice(["inside", "inside", "edge", "corner", "outside", "outside", "far"])
+    pos = rng.choice(["inside", "inside", "inside", "edge", "corner", "outside", "outside", "far"])
+    if inside: pos = "inside"
     den = rng.choice([2, 4, 8])
     if pos == "inside":
         a = rng.randint(1, den - 1) if den > 2 else 1; b = rng.randint(0, den - a)
@@ -117,19 +207,40 @@ def gen_shape(rng):
     elif pos == "outside": bc = [Fraction(rng.randint(-den, 2 * den), den), Fraction(rng.randint(-den, 2 * den), den)]
     else: bc = [Fraction(rng.randint(-20, 20)), Fraction(rng.randint(-20, 20))]
     return {"kind": kind, "bc": [S(x) for x in bc], "which": rng.randrange(10 ** 6),
-            "size": S(Fraction(rng.randint(0, 12), 4)), "aspect": S(Fraction(rng.randint(1, 12), 4)),
+            "size": S(rng.choice(SIZES)), "aspect": S(Fraction(rng.randint(1, 12), 4)),
+            "dscale": S(rng.choice([Fraction(1, 16), Fraction(1, 4), Fraction(1), Fraction(1)])),
             "seed": rng.randrange(10 ** 9)}
+
+A_STEPS = ["recontain", "tris", "tris", "area", "up", "up", "nbr", "for", "with", "contain", "contain", "contain", "edit", "edit",
+           "move_up", "move_nbr", "move_for", "move_with"]
+C_STEPS = ["recontain", "tris", "tris", "area", "up", "up", "nbr", "for", "repr", "contain", "contain", "contain",
+           "move_up", "move_nbr", "move_for", "to_array"]
+def gen_steps(rng, names, n):
+    ks = [rng.choice(names) for _ in range(n)]
+    # every session asks one object about two different shapes and re-uses a shape on a different set of the same length
+    for must in ("contain", "recontain", "contain"):
+        ks.insert(rng.randint(0, len(ks)), must)
+    steps, nslot = [], 0
+    for k in ks:
+        st = {"k": k, "seed": rng.randrange(10 ** 9)}
+        if k in ("contain", "recontain"):
+            st["slot"] = nslot % 2 if nslot < 2 else rng.randrange(2)
+            nslot += 1
+            st["shape"] = gen_shape(rng, inside=k == "recontain")          # used when the slot is still empty
+        steps.append(st)
+    return steps
 
 def gen_inputs(tier, rng):
     big = tier == "thorough"
-    n = 800 if big else 60
+    n = 300 if big else 24
     for i in range(n):
         A = gen_array(rng)
         for op in ("a_tris", "a_up", "a_nbr"):
             yield dict(A, op=op)
         nt = len(A["idx"])
         yield dict(A, op="a_for", sel=[rng.randrange(nt) for _ in range(rng.randint(0, nt + 1))])
-        yield dict(A, op="a_with", verts2=[rand_pt(rng) for _ in A["verts"]])
+        sc, off = F(A["sc"]), [F(A["off"][0]), F(A["off"][1])]
+        yield dict(A, op="a_with", verts2=[place(rand_pt(rng), sc, off) for _ in A["verts"]])
         for _ in range(2): yield dict(A, op="a_contain", shape=gen_shape(rng))
     for i in range(n):
         C = gen_coord(rng)
@@ -138,15 +249,37 @@ def gen_inputs(tier, rng):
         yield dict(C, op="c_for", selseed=rng.randrange(10 ** 9))
         for _ in range(2): yield dict(C, op="c_contain", shape=gen_shape(rng))
     for i in range(n // 2):
-        lo = [Fraction(rng.randint(-8, 8), 4) for _ in range(2)]
-        ext = [Fraction(rng.randint(0, 6), 4) for _ in range(2)]
-        sc = rng.choice(SIDES[1:])
-        L = {"lims": [S(lo[0]), S(lo[0] + ext[0]), S(lo[1]), S(lo[1] + ext[1])], "scale": S(sc)}
+        sc = pick_scale(rng)
+        off = pick_offset(rng, sc)
+        lo = [off[j] + sc * Fraction(rng.randint(-8, 8), 4) for j in range(2)]
+        ext = [sc * Fraction(rng.randint(0, 6), 4) for _ in range(2)]
+        side = rng.choice(SIDES[1:]) * sc
+        L = {"lims": [S(lo[0]), S(lo[0] + ext[0]), S(lo[1]), S(lo[1] + ext[1])], "scale": S(side)}
         yield dict(L, op="a_limits")
         yield dict(L, op="c_limits")
         yield dict(L, op=rng.choice(["al_up", "al_nbr", "al_for", "al_contain"]), seed=rng.randrange(10 ** 9), shape=gen_shape(rng))
+    # sessions: one object, several calls (repeats, re-used shapes, in-place edits, the object replaced by its own results)
+    for i in range(200 if big else 26):
+        A = gen_array(rng)
+        yield dict(A, op="a_session", steps=gen_steps(rng, A_STEPS, rng.randint(5, 9)))
+    for i in range(200 if big else 26):
+        C = gen_coord(rng, small=rng.random() < 0.5)
+        C["pre"] = []
+        yield dict(C, op="c_session", steps=gen_steps(rng, C_STEPS, rng.randint(5, 9)))
+    # chains of consecutive up_sample() calls following one child (depth 10-16): sides down to 2^-16 of the start
+    for i in range(24 if big else 5):
+        depth = rng.randint(10, 16)
+        sc = rng.choice([Fraction(1), Fraction(1), Fraction(1, 2 ** 10), Fraction(2) ** 20])
+        A = gen_array(rng, sc=sc)
+        A["idx"] = A["idx"][:2]
+        yield dict(A, op="a_chain", picks=[rng.randrange(10 ** 6) for _ in range(depth)], shape=gen_shape(rng),
+                   shape2=gen_shape(rng))
+        C = gen_coord(rng, sc=sc, small=True)
+        C["pre"] = []
+        yield dict(C, op="c_chain", picks=[rng.randrange(10 ** 6) for _ in range(depth)], shape=gen_shape(rng),
+                   shape2=gen_shape(rng))
     for i in range(30 if big else 8):
-        yield {"op": "shape_init", "nv": i % 5, "seed": rng.randrange(10 ** 9)}
+        yield {"op": "shape_init", "nv": i % 5, "seed": rng.randrange(10 ** 9), "sc": S(pick_scale(rng))}
     # malformed stream: an index row that addresses no vertex (numpy raises IndexError)
     for i in range(40 if big else 10):
         A = gen_array(rng)
@@ -155,14 +288,29 @@ def gen_inputs(tier, rng):
         yield dict(A, op="a_checked")
 
 # ----------------------------------------------------------------------------- Coq printing
-def cpt(p): return ctup([cq(p[0]), cq(p[1])])
-def ctri(t): return ctup([cpt(t[0]), cpt(t[1]), cpt(t[2])])
+def dy_parts(x):
+    """(m, e) with x = m * 2^e, or None if x is not dyadic"""
+    x = Fraction(x); d = x.denominator
+    if d & (d - 1): return None
+    n, e = x.numerator, -(d.bit_length() - 1)
+    if d == 1 and n:
+        tz = (n & -n).bit_length() - 1
+        if tz > 8: n >>= tz; e = tz
+    return n, e
+def cqd(x):
+    pr = dy_parts(x)
+    return cq(x) if pr is None else f"(D {cz(pr[0])} {cz(pr[1])})"
+def cpt(p):
+    a, b = dy_parts(p[0]), dy_parts(p[1])
+    if a is None or b is None: return ctup([cq(p[0]), cq(p[1])])
+    return f"(P {cz(a[0])} {cz(a[1])} {cz(b[0])} {cz(b[1])})"
+def ctri(t): return f"(Tr {cpt(t[0])} {cpt(t[1])} {cpt(t[2])})"
 def ctris(ts): return clist([ctri(t) for t in ts])
-def cidx(rows): return clist([ctup([cnat(i) for i in r]) for r in rows])
+def cidx(rows): return clist([f"(I3 {int(r[0])} {int(r[1])} {int(r[2])})" for r in rows])
 def catri(idx, verts): return ctup([cidx(idx), clist([cpt(v) for v in verts])])
-def czpts(cs): return clist([ctup([cz(c[0]), cz(c[1])]) for c in cs])
-def ccs(c): return f"(mkq {czpts(c['coords'])} {cq(c['side'])} {cq(c['xo'])} {cq(c['yo'])} {cbool(c['fl'])})"
-def cnats(l): return clist([cnat(i) for i in l])
+def czpts(cs): return clist([f"(Zp {cz(c[0])} {cz(c[1])})" for c in cs])
+def ccs(c): return f"(mkq {czpts(c['coords'])} {cqd(c['side'])} {cqd(c['xo'])} {cqd(c['yo'])} {cbool(c['fl'])})"
+def cnats(l): return "(NL " + clist([str(int(i)) for i in l]) + ")"
 
 def fr_tris(arr): return [[[frac(v[0]), frac(v[1])] for v in t] for t in np.asarray(arr)]
 def fr_pts(arr): return [[frac(v[0]), frac(v[1])] for v in np.asarray(arr)]
@@ -178,10 +326,10 @@ def cs_of(obj):
 def cshape(sh):
     k = sh[0]
     if k == "point": return f"(QPoint {cpt(sh[1])})"
-    if k == "circle": return f"(QCircle {cpt(sh[1])} {cq(sh[2])})"
+    if k == "circle": return f"(QCircle {cpt(sh[1])} {cqd(sh[2])})"
     if k == "triangle": return f"(QTriangle {cpt(sh[1])} {cpt(sh[2])} {cpt(sh[3])})"
     if k == "polygon": return f"(QPolygon {clist([cpt(p) for p in sh[1]])})"
-    if k == "square": return f"(QSquare {cq(sh[1])} {cq(sh[2])} {cq(sh[3])} {cq(sh[4])})"
+    if k == "square": return f"(QSquare {cqd(sh[1])} {cqd(sh[2])} {cqd(sh[3])} {cqd(sh[4])})"
     raise ValueError(k)
 
 def py_shape(sh):
@@ -194,7 +342,19 @@ def py_shape(sh):
     if k == "square": return SH.Square(top=fl(sh[1]), bottom=fl(sh[2]), left=fl(sh[3]), right=fl(sh[4]))
     raise ValueError(k)
 
+def shape_state(sh, P):
+    """the attributes of the Shape object that its mask reads (to verify that a call does not change them)"""
+    k = sh[0]
+    st = [float(P.x), float(P.y)]
+    if k == "circle": st.append(float(P.radius))
+    if k == "triangle": st += [float(c) for q in (P.a, P.b, P.c) for c in q]
+    if k == "polygon": st += [float(c) for q in P.vertices for c in q] + [float(c) for t in P.triangles for q in (t.a, t.b, t.c) for c in q]
+    if k == "square": st += [float(P.top), float(P.bottom), float(P.left), float(P.right)]
+    return st
+
 # ----------------------------------------------------------------------------- exact margins of the containment decisions
+# Everything below works on NORMALISED coordinates (divided by the power-of-two scale of the triangle set), so every
+# margin is relative to the side of the triangles.
 def is_dy(x):
     """small dyadic: every sum / product of a few of these is exact in double arithmetic"""
     x = Fraction(x); d = x.denominator
@@ -203,29 +363,56 @@ def mean_fr(l): return sum(l, Fraction(0)) / len(l)
 
 class Band(Exception): pass
 
-def dec(margin, exact_ok):
+class Ctx:
+    """uncertainties in NORMALISED units.  u: of a triangle corner as the implementation sees it versus the model (0 when the
+    model is given the implementation's own doubles: the code then only forms exact differences of them); m: rounding of a
+    computed quantity of the size of the coordinates (centroid, mean, midpoint of a square); magn: largest |coordinate| / scale"""
+    def __init__(self, sc, mag, inexact_tris):
+        self.sc = sc
+        self.magn = Fraction(mag) / sc
+        self.u = self.magn / 2 ** 46 if inexact_tris else Fraction(0)
+        self.m = self.magn / 2 ** 50
+        self.exact = not inexact_tris
+
+def dec(margin, exact_ok, need=MARGIN):
     """a comparison whose two sides differ by `margin` (exactly): refuse the case if rounding could flip it"""
     m = abs(margin)
-    if m >= MARGIN: return
+    if m >= need: return
     if m == 0 and exact_ok: return
     raise Band()
 
-def bary_dec(p, a, b, c, exact_ctx):
-    den = (b[1] - c[1]) * (a[0] - c[0]) + (c[0] - b[0]) * (a[1] - c[1])
-    exact_ctx = exact_ctx and all(is_dy(x) for q in (p, a, b, c) for x in q)
+def bary_dec(p, a, b, c, exact_in, up, uc):
+    """the six comparisons of the barycentric test of p in (a, b, c).  exact_in: p and the corners are exactly what the
+    implementation uses; up / uc: absolute uncertainty of p / of a corner"""
+    D1, D2, D3, D4 = b[1] - c[1], a[0] - c[0], c[0] - b[0], a[1] - c[1]
+    P0, P1 = p[0] - c[0], p[1] - c[1]
+    E1, E2 = c[1] - a[1], a[0] - c[0]
+    den = D1 * D2 + D3 * D4
+    # the code only uses coordinate differences: with exact inputs whose differences are small dyadics every product and sum is exact
+    exact = exact_in and all(is_dy(x) for x in (D1, D2, D3, D4, P0, P1, E1))
     if den == 0:
-        if not exact_ctx: raise Band()
+        if not exact: raise Band()
         return
-    if abs(den) < MARGIN: raise Band()
-    ca = ((b[1] - c[1]) * (p[0] - c[0]) + (c[0] - b[0]) * (p[1] - c[1])) / den
-    cb = ((c[1] - a[1]) * (p[0] - c[0]) + (a[0] - c[0]) * (p[1] - c[1])) / den
+    L2 = max(D1 * D1 + D3 * D3, D2 * D2 + D4 * D4, (a[0] - b[0]) ** 2 + (a[1] - b[1]) ** 2)
+    if abs(den) < MARGIN * L2: raise Band()           # too thin relative to its own size
+    ad = abs(den)
+    dden = EPS * (abs(D1 * D2) + abs(D3 * D4)) + 2 * uc * (abs(D1) + abs(D2) + abs(D3) + abs(D4))
+    def coord(F1, G1, F2, G2):
+        num = F1 * G1 + F2 * G2
+        v = num / den
+        dnum = EPS * (abs(F1 * G1) + abs(F2 * G2)) + 2 * uc * (abs(G1) + abs(G2)) + (up + uc) * (abs(F1) + abs(F2))
+        return v, (dnum + abs(v) * dden) / ad + EPS * abs(v)
+    ca, da = coord(D1, P0, D3, P1)
+    cb, db = coord(E1, P0, E2, P1)
     cc = 1 - ca - cb
-    # with small dyadic inputs numerators and denominator are exact, so a quotient that is exactly 0 or 1 is computed
+    # with small dyadic differences numerators and denominator are exact, so a quotient that is exactly 0 or 1 is computed
     # exactly; 1 - ca - cb is exact only if both quotients are themselves small dyadics
-    for v in (ca, cb):
-        dec(v, exact_ctx); dec(1 - v, exact_ctx)
-    okc = exact_ctx and is_dy(ca) and is_dy(cb)
-    dec(cc, okc); dec(1 - cc, okc)
+    for v, d in ((ca, da), (cb, db)):
+        need = max(MARGIN, 64 * d)
+        dec(v, exact, need); dec(1 - v, exact, need)
+    okc = exact and is_dy(ca) and is_dy(cb)
+    need = max(MARGIN, 64 * (da + db) + EPS)
+    dec(cc, okc, need); dec(1 - cc, okc, need)
 
 def ref_of(sh):
     k = sh[0]
@@ -234,52 +421,97 @@ def ref_of(sh):
     if k == "polygon": return [mean_fr([p[0] for p in sh[1]]), mean_fr([p[1] for p in sh[1]])]
     if k == "square": return [(sh[3] + sh[4]) / 2, (sh[1] + sh[2]) / 2]
 
-def tri_shape_dec(a, b, c, t, cen, cen_exact, exact_ctx):
-    sw = lambda p: [p[1], p[0]]
-    bary_dec(cen, sw(a), sw(b), sw(c), exact_ctx and cen_exact)
-    r = [mean_fr([a[0], b[0], c[0]]), mean_fr([a[1], b[1], c[1]])]
-    bary_dec(r, t[0], t[1], t[2], exact_ctx)
+def mean_exact(vals, sc):
+    """is the mean of these (normalised) numbers computed without rounding (sequential sum, then one division)?"""
+    s = Fraction(0)
+    for v in vals:
+        s += v
+        if not rep(s * sc): return False
+    return rep(s / len(vals) * sc)
 
-def check_band(sh, tris, exact_ctx):
-    """raise Band if some decision of shape.mask(tris) is within the rounding band"""
+def tri_shape_dec(a, b, c, t, cen, cen_exact, ctx):
+    sw = lambda p: [p[1], p[0]]
+    # Triangle.triangle_contains_mask: the corners of the shape are exact inputs, the centroid of the triangle is computed
+    bary_dec(cen, sw(a), sw(b), sw(c), cen_exact, ctx.u + ctx.m, Fraction(0))
+    # Point.mask with the mean of the shape's corners
+    r = [mean_fr([a[0], b[0], c[0]]), mean_fr([a[1], b[1], c[1]])]
+    r_exact = mean_exact([a[0], b[0], c[0]], ctx.sc) and mean_exact([a[1], b[1], c[1]], ctx.sc)
+    bary_dec(r, t[0], t[1], t[2], ctx.exact and r_exact, Fraction(0) if r_exact else ctx.m, ctx.u)
+
+def scale_shape(sh, f):
     k = sh[0]
-    r = ref_of(sh)
-    for t in tris:
+    sp = lambda q: [q[0] * f, q[1] * f]
+    if k == "point": return ("point", sp(sh[1]))
+    if k == "circle": return ("circle", sp(sh[1]), sh[2] * f)
+    if k == "square": return ("square",) + tuple(x * f for x in sh[1:])
+    if k == "triangle": return ("triangle",) + tuple(sp(q) for q in sh[1:])
+    return ("polygon", [sp(q) for q in sh[1]])
+
+def check_band(sh, tris, inexact_tris):
+    """raise Band if some decision of shape.mask(tris) is within the rounding band.  `inexact_tris`: the model's triangles are
+    not bit-for-bit the implementation's (coordinate arrays)"""
+    sc = scale_of(tris)
+    ref = ref_of(sh)
+    ctx = Ctx(sc, mag_of(tris, [ref[0], ref[1]]), inexact_tris)
+    if ctx.magn > 4 * MAXMAG: raise Band()
+    shn = scale_shape(sh, 1 / sc)
+    trn = [[[v[0] / sc, v[1] / sc] for v in t] for t in tris]
+    k = shn[0]
+    r = ref_of(shn)
+    # the reference point the implementation uses: given (point, circle) or computed by a mean (rounded)
+    if k in ("point", "circle"): r_exact = True
+    elif k == "square": r_exact = all(rep(x * sc) for x in (shn[3] + shn[4], shn[1] + shn[2], r[0], r[1]))
+    elif k == "triangle": r_exact = mean_exact([q[0] for q in shn[1:4]], sc) and mean_exact([q[1] for q in shn[1:4]], sc)
+    else: r_exact = mean_exact([q[0] for q in shn[1]], sc) and mean_exact([q[1] for q in shn[1]], sc)
+    ur = Fraction(0) if r_exact else ctx.m
+    for t in trn:
         cen = [mean_fr([v[0] for v in t]), mean_fr([v[1] for v in t])]
-        cen_exact = exact_ctx and is_dy(cen[0]) and is_dy(cen[1])
-        bary_dec(r, t[0], t[1], t[2], exact_ctx)
+        cen_exact = ctx.exact and mean_exact([v[0] for v in t], sc) and mean_exact([v[1] for v in t], sc)
+        uce = ctx.u + (Fraction(0) if cen_exact else ctx.m)
+        bary_dec(r, t[0], t[1], t[2], ctx.exact and r_exact, ur, ctx.u)
         if k == "circle":
-            d2 = (cen[0] - r[0]) ** 2 + (cen[1] - r[1]) ** 2
-            dec(d2 - sh[2] ** 2, cen_exact)
+            a, b = cen[0] - r[0], cen[1] - r[1]
+            d2 = a * a + b * b
+            r2 = shn[2] ** 2
+            ex = cen_exact and is_dy(a) and is_dy(b) and is_dy(shn[2])
+            D = max(d2, r2)
+            if D == 0:
+                if not ex: raise Band()
+                continue
+            rootD = Fraction(float(D) ** 0.5) + Fraction(1, 2 ** 40)
+            need = max(MARGIN * D, 64 * (4 * uce * rootD + 4 * uce * uce + EPS * D))
+            dec(d2 - r2, ex, need)
         elif k == "square":
-            for m in (cen[0] - sh[3], sh[4] - cen[0], sh[2] - cen[1], cen[1] - sh[1]): dec(m, exact_ctx)
+            need = max(MARGIN, 64 * uce)
+            for m in (cen[0] - shn[3], shn[4] - cen[0], shn[2] - cen[1], cen[1] - shn[1]): dec(m, cen_exact, need)
         elif k == "triangle":
-            tri_shape_dec(sh[1], sh[2], sh[3], t, cen, cen_exact, exact_ctx)
+            tri_shape_dec(shn[1], shn[2], shn[3], t, cen, cen_exact, ctx)
         elif k == "polygon":
-            vs = sh[1]
-            for s2, s3 in zip(vs[1:], vs[2:]): tri_shape_dec(vs[0], s2, s3, t, cen, cen_exact, exact_ctx)
+            vs = shn[1]
+            for s2, s3 in zip(vs[1:], vs[2:]): tri_shape_dec(vs[0], s2, s3, t, cen, cen_exact, ctx)
 
 NUDGES = [(0, 0), (Fraction(1, 16), Fraction(1, 32)), (Fraction(-3, 64), Fraction(1, 16)), (Fraction(5, 128), Fraction(-7, 128)),
           (Fraction(11, 64), Fraction(13, 128))]
-def shape_for(desc, tris, exact_ctx):
+def shape_for(desc, tris, inexact_tris):
     """the requested shape, nudged off the rounding band if necessary; None if every attempt is inside the band"""
     for nd in NUDGES:
-        sh = build_shape(desc, tris, exact_ctx, nd)
+        sh = build_shape(desc, tris, nd)
         try:
-            check_band(sh, tris, exact_ctx)
+            check_band(sh, tris, inexact_tris)
             return sh
         except Band:
             continue
     return None
 
-def build_shape(desc, tris, exact_ctx, nudge=(0, 0)):
-    """concrete shape whose reference point has the requested barycentric position in one of `tris`"""
-    import random
+def build_shape(desc, tris, nudge=(0, 0)):
+    """concrete shape whose reference point has the requested barycentric position in one of `tris`; its size is in units
+    of the scale of the set"""
     rng = random.Random(desc["seed"])
     t = tris[desc["which"] % len(tris)]
+    sc = scale_of(tris)
     ca, cb = F(desc["bc"][0]) + nudge[0], F(desc["bc"][1]) + nudge[1]; cc = 1 - ca - cb
     p = [ca * t[0][0] + cb * t[1][0] + cc * t[2][0], ca * t[0][1] + cb * t[1][1] + cc * t[2][1]]
-    sh = _build_shape(desc, p, rng)
+    sh = _build_shape(desc, p, rng, sc)
     # snap every parameter to a double so that the shape the code sees is the shape the model sees
     sn = lambda x: frac(float(x))
     snp = lambda q: [sn(q[0]), sn(q[1])]
@@ -290,21 +522,46 @@ def build_shape(desc, tris, exact_ctx, nudge=(0, 0)):
     if k == "triangle": return ("triangle",) + tuple(snp(q) for q in sh[1:])
     return ("polygon", [snp(q) for q in sh[1]])
 
-def _build_shape(desc, p, rng):
-    size, asp = F(desc["size"]), F(desc["aspect"])
+def _build_shape(desc, p, rng, sc):
+    size, asp = F(desc["size"]) * sc, F(desc["aspect"])
+    ds = F(desc.get("dscale", "1")) * sc
     k = desc["kind"]
     if k == "point": return ("point", p)
     if k == "circle": return ("circle", p, size)
     if k == "square":
         hw, hh = size / 2, size * asp / 2
         return ("square", p[1] - hh, p[1] + hh, p[0] - hw, p[0] + hw)
-    d = [[Fraction(rng.randint(-8, 8), 4), Fraction(rng.randint(-8, 8), 4)] for _ in range(rng.randint(2, 4))]
+    d = [[ds * Fraction(rng.randint(-8, 8), 4), ds * Fraction(rng.randint(-8, 8), 4)] for _ in range(rng.randint(2, 4))]
     if k == "triangle":
         d = d[:2]
         d.append([-d[0][0] - d[1][0], -d[0][1] - d[1][1]])      # offsets sum to zero: the mean is p
         return ("triangle",) + tuple([p[0] + q[0], p[1] + q[1]] for q in d)
     d.append([-sum(q[0] for q in d), -sum(q[1] for q in d)])
     return ("polygon", [[p[0] + q[0], p[1] + q[1]] for q in d])
+
+# ----------------------------------------------------------------------------- is the double arithmetic exact on this set?
+def exact_set(tris):
+    """every midpoint, reflection and area term of these triangles is computed without rounding by the implementation"""
+    terms = []
+    for t in tris:
+        for j in range(2):
+            a, b, c = t[0][j], t[1][j], t[2][j]
+            for s in (a + b, b + c, c + a, (a + b) / 2, (b + c) / 2, (c + a) / 2, b + c - a, a + c - b, a + b - c):
+                if not rep(s): return False
+        (x0, y0), (x1, y1), (x2, y2) = t
+        ps = [x0 * (y1 - y2), x1 * (y2 - y0), x2 * (y0 - y1)]
+        for s in (y1 - y2, y2 - y0, y0 - y1, ps[0], ps[1], ps[2], ps[0] + ps[1], ps[0] + ps[1] + ps[2]):
+            if not rep(s): return False
+        terms.append(abs(ps[0] + ps[1] + ps[2]))
+    nz = [x for x in terms if x != 0]
+    if nz:
+        # np.sum adds in an unspecified (pairwise) order: exact if all terms are multiples of one unit and the total is short
+        unit = min(Fraction(1, x.denominator) * (x.numerator & -x.numerator) for x in nz)
+        if sum(nz) / unit >= 2 ** 52: return False
+    return True
+
+def tl_of_tris(tris, extra=()):
+    return tols_for(scale_of(tris), mag_of(tris, extra))
 
 # ----------------------------------------------------------------------------- the operations
 def hq():
@@ -315,8 +572,8 @@ def mk_array(inp):
     from autoarray.structures.triangles.array import ArrayTriangles
     verts = [[F(v[0]), F(v[1])] for v in inp["verts"]]
     A = ArrayTriangles(indices=np.array(inp["idx"], dtype=int).reshape(-1, 3),
-                       vertices=np.array([[float(v[0]), float(v[1])] for v in verts]))
-    return A, inp["idx"], verts
+                       vertices=np.array([[float(v[0]), float(v[1])] for v in verts]).reshape(-1, 2))
+    return A, [list(r) for r in inp["idx"]], verts
 
 def mk_coord(inp):
     from autoarray.structures.triangles.coordinate_array import CoordinateArrayTriangles
@@ -331,44 +588,317 @@ def skip(kind):
     return {"coq": None, "out": "skipped: a decision lies inside the rounding band", "py_ok": None, "nontrivial": False,
             "kind": kind + ":in-band"}
 
-def array_ops(A, idx, verts, op, inp, ex, base):
-    """operations on an ArrayTriangles object A whose exact input description is (idx, verts)"""
+def tris_of(idx, verts): return [[verts[i] for i in r] for r in idx]
+
+def array_op(A, idx, verts, op, arg=None):
+    """one call on the ArrayTriangles object A whose exact current contents are (idx, verts).
+    returns (coq cases, py_ok, out, result object or None); raises Band for a containment decision inside the band"""
     from autoarray.structures.triangles.array import ArrayTriangles
     cA = catri(idx, verts)
-    exb = cbool(ex)
+    tris = tris_of(idx, verts)
+    ex = exact_set(tris)
+    tl = NOTL if ex else tl_of_tris(tris)
+    exb = cbool(ex); tls = ctl(tl)
     if op == "tris":
         out = fr_tris(A.triangles)
-        area = frac(A.area)
         ok = len(A) == len(idx)
-        return dict(base, coq=f"(KATris {cA} {ctris(out)})", extra_coq=[f"(KAArea {cA} {cq(area)})"] if ex else [],
-                    out={"triangles": str(out)[:400], "area": str(area)}, py_ok=ok)
+        return [f"(KATris {cA} {ctris(out)})"], ok, {"triangles": str(out)[:400]}, None
+    if op == "area":
+        area = frac(A.area)
+        return [f"(KAArea {tls} {exb} {cA} {cqd(area)})"], True, {"area": str(area)}, None
     if op == "up":
         U = A.up_sample()
         oi, ov = atri_of(U)
         ok = isinstance(U, ArrayTriangles) and len(U) == 4 * len(A) and bool(np.array_equal(U.triangles, A._up_sample_triangle()))
-        return dict(base, coq=f"(KAUp {exb} {cA} {catri(oi, ov)})", out={"indices": oi, "vertices": str(ov)[:300]}, py_ok=ok)
+        return [f"(KAUp {tls} {exb} {cA} {catri(oi, ov)})"], ok, {"indices": oi, "vertices": str(ov)[:300]}, U
     if op == "nbr":
         N = A.neighborhood()
         oi, ov = atri_of(N)
-        return dict(base, coq=f"(KANbr {exb} {cA} {catri(oi, ov)})", out={"indices": oi, "vertices": str(ov)[:300]})
+        return [f"(KANbr {tls} {exb} {cA} {catri(oi, ov)})"], isinstance(N, ArrayTriangles), {"indices": oi, "vertices": str(ov)[:300]}, N
     if op == "for":
-        sel = inp["sel"]
-        R = A.for_indexes(np.array(sel, dtype=int))
+        sel = list(arg)
+        sel_arr = np.array(sel, dtype=int)
+        R = A.for_indexes(sel_arr)
         oi, ov = atri_of(R)
         ok = bool(np.array_equal(R.triangles, A.triangles[np.array(sel, dtype=int)])) if sel else len(R) == 0
-        return dict(base, coq=f"(KAFor {exb} {cA} {cnats(sel)} {catri(oi, ov)})", out={"indices": oi, "vertices": str(ov)[:300]}, py_ok=ok)
+        ok = ok and sel_arr.tolist() == sel                 # the selection handed in is not modified
+        return [f"(KAFor {tls} {exb} {cA} {cnats(sel)} {catri(oi, ov)})"], ok, {"indices": oi, "vertices": str(ov)[:300]}, R
     if op == "with":
-        v2 = [[F(v[0]), F(v[1])] for v in inp["verts2"]]
-        R = A.with_vertices(np.array([[float(v[0]), float(v[1])] for v in v2]))
+        v2 = [[F(v[0]), F(v[1])] for v in arg]
+        v2_arr = np.array([[float(v[0]), float(v[1])] for v in v2]).reshape(-1, 2)
+        keep = v2_arr.copy()
+        R = A.with_vertices(v2_arr)
         out = fr_tris(R.triangles)
-        return dict(base, coq=f"(KAWith {cA} {clist([cpt(v) for v in v2])} {ctris(out)})", out=str(out)[:400])
-    if op == "contain":
-        tris = [[verts[i] for i in r] for r in idx]
-        sh = shape_for(inp["shape"], tris, ex)
-        if sh is None: return skip(base["kind"])
-        out = [int(i) for i in A.containing_indices(py_shape(sh))]
-        return dict(base, coq=f"(KAContain {cA} {cshape(sh)} {cnats(out)})", out=out, shape=str(sh)[:300])
+        ok = bool(np.array_equal(v2_arr, keep))
+        return [f"(KAWith {cA} {clist([cpt(v) for v in v2])} {ctris(out)})"], ok, str(out)[:400], R
     raise ValueError(op)
+
+def contain_op(obj, tris, sh, P, coq_of):
+    """containing_indices with the Shape object P (exact description sh), twice; the shape must not change"""
+    before = shape_state(sh, P)
+    out = [int(i) for i in obj.containing_indices(P)]
+    again = [int(i) for i in obj.containing_indices(P)]
+    ok = out == again and shape_state(sh, P) == before
+    return [coq_of(out)], ok, out
+
+def array_ops(A, idx, verts, op, inp, base):
+    """single-operation streams on a fresh ArrayTriangles object"""
+    keep_i, keep_v = np.array(A.indices).copy(), np.array(A.vertices).copy()
+    if op == "contain":
+        tris = tris_of(idx, verts)
+        sh = shape_for(inp["shape"], tris, False)
+        if sh is None: return skip(base["kind"])
+        cases, ok, out = contain_op(A, tris, sh, py_shape(sh), lambda o: f"(KAContain {catri(idx, verts)} {cshape(sh)} {cnats(o)})")
+        extra = {"shape": str(sh)[:300]}
+    else:
+        arg = inp.get("sel") if op == "for" else inp.get("verts2") if op == "with" else None
+        cases, ok, out, _ = array_op(A, idx, verts, op, arg)
+        if op == "tris":
+            c2, ok2, out2, _ = array_op(A, idx, verts, "area")
+            cases += c2; ok = ok and ok2; out = dict(out, **out2)
+        extra = {}
+    # the arrays handed to the constructor are not modified by the call
+    ok = ok and bool(np.array_equal(A.indices, keep_i)) and bool(np.array_equal(A.vertices, keep_v))
+    return dict(base, coq=cases[0], extra_coq=cases[1:], out=out, py_ok=ok, **extra)
+
+# ---- CoordinateArrayTriangles
+def coord_op(C, S0, it, op, arg=None):
+    """one call on the CoordinateArrayTriangles object C with exact description S0 and triangles `it` (as first read)"""
+    from autoarray.structures.triangles.array import ArrayTriangles
+    from autoarray.structures.triangles.coordinate_array import CoordinateArrayTriangles
+    h = hq()
+    tl = tols_for(S0["side"], mag_of(it, [S0["xo"], S0["yo"]]))
+    pre = f"{ctl(tl)} {cqd(h)} {ccs(S0)}"
+    if op == "tris":
+        t2 = fr_tris(C.triangles)
+        ok = len(C) == len(S0["coords"]) and t2 == it
+        return [f"(KCTris {pre} {ctris(t2)})"], ok, {"triangles": str(t2)[:400]}, None
+    if op == "area":
+        area = frac(C.area)
+        return [f"(KCArea {pre} {cqd(area)})"], True, {"area": str(area)}, None
+    if op in ("up", "nbr", "for"):
+        if op == "up": R = C.up_sample(); k = "KCUp"; mid = ""
+        elif op == "nbr": R = C.neighborhood(); k = "KCNbr"; mid = ""
+        else:
+            sel = list(arg)
+            sel_arr = np.array(sel, dtype=int)
+            R = C.for_indexes(sel_arr); k = "KCFor"; mid = cnats(sel) + " "
+        ok = isinstance(R, CoordinateArrayTriangles)
+        if op == "for": ok = ok and sel_arr.tolist() == sel
+        if op == "up":
+            ca = float(C.area)
+            ok = ok and len(R) == 4 * len(C) and abs(float(R.area) - ca) <= 1e-9 * ca
+        So = cs_of(R); ot = fr_tris(R.triangles) if len(So["coords"]) else []
+        return ([f"({k} {pre} {ctris(it)} {mid}{ccs(So)} {ctris(ot)})"], ok,
+                {"coords": So["coords"][:12], "side": str(So["side"]), "yo": str(So["yo"]), "fl": So["fl"]}, R)
+    if op == "repr":
+        oi, ov = int_rows(C.indices), fr_pts(C.vertices)
+        W = C.with_vertices(C.vertices)
+        ok = isinstance(W, ArrayTriangles) and bool(np.array_equal(W.triangles, C.triangles))
+        cases = [f"(KCRepr {pre} {catri(oi, ov)})"]
+        # with_vertices with OTHER vertices: the index rows of the coordinate array applied to the array handed in
+        r = random.Random(len(ov) * 7919 + len(oi))
+        v2 = [[v[0] + S0["side"] * Fraction(r.randint(-8, 8), 4), v[1] - S0["side"] * Fraction(r.randint(-8, 8), 4)] for v in ov]
+        if all(rep(x) for v in v2 for x in v):
+            v2_arr = np.array([[float(v[0]), float(v[1])] for v in v2]).reshape(-1, 2); keep2 = v2_arr.copy()
+            W2 = C.with_vertices(v2_arr)
+            ok = ok and isinstance(W2, ArrayTriangles) and bool(np.array_equal(v2_arr, keep2))
+            cases.append(f"(KAWith {catri(oi, ov)} {clist([cpt(v) for v in v2])} {ctris(fr_tris(W2.triangles))})")
+        return cases, ok, {"indices": oi, "vertices": str(ov)[:300]}, W
+    raise ValueError(op)
+
+def coord_contain_case(S0, it, sh):
+    tl = tols_for(S0["side"], mag_of(it, [S0["xo"], S0["yo"]]))
+    return lambda o: f"(KCContain {ctl(tl)} {cqd(hq())} {ccs(S0)} {ctris(it)} {cshape(sh)} {cnats(o)})"
+
+def coord_unchanged(C, S0, keep):
+    return cs_of(C) == S0 and bool(np.array_equal(np.asarray(C.coordinates), keep))
+
+def too_wide(S0, it):
+    """largest coordinate / side beyond what the generators are meant to produce (tolerances would be meaningless)"""
+    return mag_of(it, [S0["xo"], S0["yo"]]) > 4 * MAXMAG * S0["side"]
+
+# ----------------------------------------------------------------------------- sessions and chains
+class Sess:
+    def __init__(self):
+        self.cases = []; self.ok = True; self.log = []; self.why = []
+    def add(self, name, cases, ok, out=None):
+        self.cases += cases
+        if not ok: self.ok = False; self.why.append(name)
+        self.log.append(name if out is None else f"{name}: {str(out)[:120]}")
+    def row(self, kind, nontrivial):
+        if not self.cases:
+            return {"coq": None, "out": self.log, "py_ok": self.ok if not self.ok else None, "nontrivial": False, "kind": kind + ":empty"}
+        return {"coq": self.cases[0], "extra_coq": self.cases[1:], "out": self.log, "py_ok": self.ok, "nontrivial": nontrivial,
+                "kind": kind, "detail": "python-level relation failed at: " + ", ".join(self.why) if self.why else None}
+
+def pool_shape(pool, st, tris, inexact):
+    """the Shape object of slot st['slot'] (created relative to the current triangles at first use, then re-used as is)"""
+    slot = st["slot"]
+    if slot not in pool:
+        sh = shape_for(st["shape"], tris, inexact)
+        if sh is None: return None
+        pool[slot] = (sh, py_shape(sh))
+        return pool[slot]
+    sh, P = pool[slot]
+    try: check_band(sh, tris, inexact)
+    except Band: return None
+    return pool[slot]
+
+def a_steps(se, A, idx, verts, steps, pool, sc_hint):
+    """steps on an ArrayTriangles object: (idx, verts) is the exact description of its CURRENT arrays"""
+    base_idx, base_verts, edits = [list(r) for r in idx], [list(v) for v in verts], []
+    for n, st in enumerate(steps):
+        k = st["k"]; r = random.Random(st["seed"]); name = f"{n}:{k}"
+        nt = len(idx)
+        if k in ("move_up", "move_nbr") and nt > 6: k = "up" if k == "move_up" else "nbr"
+        if k in ("tris", "area", "up", "nbr", "move_up", "move_nbr"):
+            cases, ok, out, R = array_op(A, idx, verts, k.replace("move_", ""))
+        elif k in ("for", "move_for"):
+            sel = [r.randrange(nt) for _ in range(r.randint(1, nt + 1))]
+            cases, ok, out, R = array_op(A, idx, verts, "for", sel)
+        elif k in ("with", "move_with"):
+            sc = scale_of(tris_of(idx, verts)) if idx else sc_hint
+            c0 = verts[0] if verts else [Fraction(0), Fraction(0)]
+            v2 = [[c0[0] + sc * Fraction(r.randint(-8, 8), 4), c0[1] + sc * Fraction(r.randint(-8, 8), 4)] for _ in verts]
+            if not all(rep(x) for v in v2 for x in v): continue
+            cases, ok, out, R = array_op(A, idx, verts, "with", v2)
+        elif k == "contain":
+            tris = tris_of(idx, verts)
+            got = pool_shape(pool, st, tris, False)
+            if got is None:
+                _skipped["steps_in_band"] += 1; continue
+            sh, P = got
+            cases, ok, out = contain_op(A, tris, sh, P, lambda o: f"(KAContain {catri(idx, verts)} {cshape(sh)} {cnats(o)})")
+            R = None
+        elif k == "recontain":
+            # the same Shape object on this set and then on a DIFFERENT set of the same length (the selection rotated by one,
+            # or the single triangle translated): the second answer must follow the second set
+            tris = tris_of(idx, verts)
+            got = pool_shape(pool, st, tris, False)
+            if got is None:
+                _skipped["steps_in_band"] += 1; continue
+            sh, P = got
+            cases, ok, out = contain_op(A, tris, sh, P, lambda o: f"(KAContain {catri(idx, verts)} {cshape(sh)} {cnats(o)})")
+            if nt >= 2:
+                B = A.for_indexes(np.array([(i + 1) % nt for i in range(nt)], dtype=int))
+            else:
+                sc = scale_of(tris)
+                v2 = [[v[0] + 3 * sc, v[1] - 2 * sc] for v in verts]
+                if not all(rep(x) for v in v2 for x in v): continue
+                B = A.with_vertices(np.array([[float(v[0]), float(v[1])] for v in v2]).reshape(-1, 2))
+            bi, bv = atri_of(B)
+            try:
+                check_band(sh, tris_of(bi, bv), False)
+                c2, ok2, out2 = contain_op(B, tris_of(bi, bv), sh, P, lambda o: f"(KAContain {catri(bi, bv)} {cshape(sh)} {cnats(o)})")
+                cases += c2; ok = ok and ok2 and len(bi) == nt; out = (out, out2)
+            except Band:
+                _skipped["steps_in_band"] += 1
+            R = None
+        elif k == "edit":
+            # the user overwrites one row of the vertex array in place, then reads again.
+            # every read-only observation is made BEFORE the write (so that anything remembered would be stale) ...
+            sc = scale_of(tris_of(idx, verts))
+            cases, ok, _, _ = array_op(A, idx, verts, "area")
+            hit = []
+            for sh, P in pool.values():
+                try:
+                    check_band(sh, tris_of(idx, verts), False)
+                    c2, ok2, o2 = contain_op(A, tris_of(idx, verts), sh, P, lambda o, i_=idx, v_=verts, s_=sh: f"(KAContain {catri(i_, v_)} {cshape(s_)} {cnats(o)})")
+                    cases += c2; ok = ok and ok2; hit += o2
+                except Band: pass
+            A.up_sample(); A.neighborhood(); A.for_indexes(np.array([0], dtype=int))       # results discarded
+            j = r.randrange(len(verts))
+            p = [verts[j][0] + sc * Fraction(r.randint(-6, 6), 4), verts[j][1] + sc * Fraction(r.randint(-6, 6), 4)]
+            u = r.random()
+            if u < 0.25: p = list(verts[r.randrange(len(verts))])       # now coincides with another vertex
+            elif u < 0.7 and hit:
+                # a corner of a triangle that a pooled shape was just reported for is carried far away: the answer changes
+                j = idx[hit[r.randrange(len(hit))]][r.randrange(3)]
+                p = [verts[j][0] + sc * r.choice([-12, -9, 9, 12]), verts[j][1] + sc * r.choice([-12, -9, 9, 12])]
+            if not (rep(p[0]) and rep(p[1])):
+                se.add(name + ":no-write", cases, ok); continue
+            A.vertices[j] = [float(p[0]), float(p[1])]
+            verts = [list(v) for v in verts]; verts[j] = p
+            edits.append((j, p))
+            # ... and again AFTER it: triangles, area, the pooled shapes, and one of up_sample / neighborhood / for_indexes
+            out = fr_tris(A.triangles)
+            es = clist([f"(Ed {int(e[0])} {cpt(e[1])})" for e in edits])
+            cases.append(f"(KAEdits {catri(base_idx, base_verts)} {es} {ctris(out)})")
+            c2, ok2, _, _ = array_op(A, idx, verts, "area")
+            cases += c2; ok = ok and ok2
+            which = ("up", "nbr", "for")[st["seed"] % 3] if nt <= 8 else "for"
+            c2, ok2, _, _ = array_op(A, idx, verts, which, [0] if which == "for" else None)
+            cases += c2; ok = ok and ok2
+            for sh, P in pool.values():
+                try:
+                    check_band(sh, tris_of(idx, verts), False)
+                    c2, ok2, _ = contain_op(A, tris_of(idx, verts), sh, P, lambda o, i_=idx, v_=verts, s_=sh: f"(KAContain {catri(i_, v_)} {cshape(s_)} {cnats(o)})")
+                    cases += c2; ok = ok and ok2
+                except Band: pass
+            R = None
+        else: raise ValueError(k)
+        # nothing that was handed in is modified by a call: the object's arrays are what the user last put there
+        same = (bool(np.array_equal(np.asarray(A.indices), np.array(idx, dtype=int).reshape(-1, 3)))
+                and fr_pts(A.vertices) == verts)
+        se.add(name, cases, ok and same, out)
+        if not same: return
+        if k.startswith("move_") and R is not None and len(R.indices):
+            A = R; idx, verts = atri_of(R)
+            base_idx, base_verts, edits = [list(q) for q in idx], [list(v) for v in verts], []
+
+def c_steps(se, C, steps, pool):
+    S0 = cs_of(C); it = fr_tris(C.triangles); keep = np.array(C.coordinates).copy()
+    for n, st in enumerate(steps):
+        k = st["k"]; r = random.Random(st["seed"]); name = f"{n}:{k}"
+        nc = len(S0["coords"])
+        if too_wide(S0, it): return
+        if k == "move_up" and nc > 3: k = "up"
+        if k == "move_nbr" and nc > 4: k = "nbr"
+        if k in ("tris", "area", "up", "nbr", "repr", "move_up", "move_nbr"):
+            cases, ok, out, R = coord_op(C, S0, it, k.replace("move_", ""))
+        elif k in ("for", "move_for"):
+            sel = [r.randrange(nc) for _ in range(r.randint(1, nc + 1))]
+            cases, ok, out, R = coord_op(C, S0, it, "for", sel)
+        elif k == "contain":
+            got = pool_shape(pool, st, it, True)
+            if got is None:
+                _skipped["steps_in_band"] += 1; continue
+            sh, P = got
+            cases, ok, out = contain_op(C, it, sh, P, coord_contain_case(S0, it, sh))
+            R = None
+        elif k == "recontain":
+            got = pool_shape(pool, st, it, True)
+            if got is None:
+                _skipped["steps_in_band"] += 1; continue
+            sh, P = got
+            cases, ok, out = contain_op(C, it, sh, P, coord_contain_case(S0, it, sh))
+            if nc >= 2: B = C.for_indexes(np.array([(i + 1) % nc for i in range(nc)], dtype=int))
+            else:
+                N = C.neighborhood(); B = N.for_indexes(np.array([r.randrange(len(cs_of(N)["coords"]))], dtype=int))
+            Sb = cs_of(B); bt = fr_tris(B.triangles)
+            try:
+                check_band(sh, bt, True)
+                c2, ok2, out2 = contain_op(B, bt, sh, P, coord_contain_case(Sb, bt, sh))
+                cases += c2; ok = ok and ok2 and len(Sb["coords"]) == nc; out = (out, out2)
+            except Band:
+                _skipped["steps_in_band"] += 1
+            R = None
+        elif k == "to_array":
+            # the coordinate array becomes an ArrayTriangles (with_vertices(vertices)); the session goes on with that object
+            cases, ok, out, W = coord_op(C, S0, it, "repr")
+            se.add(name, cases, ok and coord_unchanged(C, S0, keep), out)
+            idx, verts = atri_of(W)
+            rest = [dict(s, k=s["k"] if s["k"] in A_STEPS else "tris") for s in steps[n + 1:]]
+            rest = [s for s in rest if s["k"] not in ("edit", "move_with", "with")]     # W.vertices is C's cached array
+            a_steps(se, W, idx, verts, rest, pool, S0["side"])
+            return
+        else: raise ValueError(k)
+        same = coord_unchanged(C, S0, keep) and fr_tris(C.triangles) == it
+        se.add(name, cases, ok and same, out)
+        if not same: return
+        if k.startswith("move_") and R is not None and len(cs_of(R)["coords"]):
+            C = R; S0 = cs_of(C); it = fr_tris(C.triangles); keep = np.array(C.coordinates).copy()
 
 def run_case(inp):
     aa = import_aa()
@@ -383,83 +913,127 @@ def run_case(inp):
         except Exception as e: out = ("raise", exn_name(e))
         return {"coq": f"(KATrisRes {catri(idx, verts)} {cres(out, ctris)})", "out": str(out)[:300], "py_ok": None,
                 "nontrivial": len(idx) >= 2, "kind": op + (":raise" if out[0] == "raise" else "")}
+    if op == "a_session":
+        A, idx, verts = mk_array(inp)
+        se = Sess()
+        a_steps(se, A, idx, verts, inp["steps"], {}, F(inp["sc"]))
+        return se.row(op, len(idx) >= 2)
+    if op == "c_session":
+        C = mk_coord(inp)
+        se = Sess()
+        c_steps(se, C, inp["steps"], {})
+        return se.row(op, len(inp["coords"]) >= 2)
+    if op == "a_chain":
+        # consecutive up_sample() calls following one child triangle, then the usual reads on the tiny set
+        A, idx, verts = mk_array(inp)
+        se = Sess()
+        for d, pick in enumerate(inp["picks"]):
+            cases, ok, out, U = array_op(A, idx, verts, "up")
+            se.add(f"{d}:up", cases, ok)
+            ui, uv = atri_of(U)
+            sel = [pick % len(ui)]
+            if d % 4 == 3: sel.append((pick // 7) % len(ui))
+            cases, ok, out, R = array_op(U, ui, uv, "for", sel)
+            se.add(f"{d}:for", cases if d % 4 == 3 or d == len(inp["picks"]) - 1 else [], ok)
+            A = R; idx, verts = atri_of(R)
+        last = [{"k": "tris", "seed": 1}, {"k": "area", "seed": 2}, {"k": "contain", "seed": 3, "slot": 0, "shape": inp["shape"]},
+                {"k": "nbr", "seed": 4}, {"k": "contain", "seed": 5, "slot": 1, "shape": inp["shape2"]}, {"k": "up", "seed": 6}]
+        a_steps(se, A, idx, verts, last, {}, F(inp["sc"]))
+        return se.row(op, True)
+    if op == "c_chain":
+        C = mk_coord(inp)
+        se = Sess()
+        for d, pick in enumerate(inp["picks"]):
+            S0 = cs_of(C); it = fr_tris(C.triangles)
+            if too_wide(S0, it): break
+            cases, ok, out, U = coord_op(C, S0, it, "up")
+            se.add(f"{d}:up", cases, ok)
+            Su = cs_of(U); ut = fr_tris(U.triangles)
+            sel = [pick % len(Su["coords"])]
+            if d % 4 == 3: sel.append((pick // 7) % len(Su["coords"]))
+            cases, ok, out, R = coord_op(U, Su, ut, "for", sel)
+            se.add(f"{d}:for", cases if d % 4 == 3 or d == len(inp["picks"]) - 1 else [], ok)
+            C = R
+        last = [{"k": "tris", "seed": 1}, {"k": "area", "seed": 2}, {"k": "contain", "seed": 3, "slot": 0, "shape": inp["shape"]},
+                {"k": "nbr", "seed": 4}, {"k": "repr", "seed": 7}, {"k": "contain", "seed": 5, "slot": 1, "shape": inp["shape2"]},
+                {"k": "up", "seed": 6}]
+        c_steps(se, C, last, {})
+        return se.row(op, True)
     if op.startswith("a_") and op != "a_limits":
         A, idx, verts = mk_array(inp)
         base = {"kind": op, "nontrivial": len(idx) >= 2, "py_ok": None}
-        return array_ops(A, idx, verts, op[2:], inp, True, base)
+        return array_ops(A, idx, verts, op[2:], inp, base)
     if op in ("a_limits", "al_up", "al_nbr", "al_for", "al_contain"):
         y0, y1, x0, x1 = [F(v) for v in inp["lims"]]; sc = F(inp["scale"])
         if y1 == y0:      # np.arange(y, y + height, height): the row count ceil(((y+height)-y)/height) is rounding-dependent
             return skip(op)
+        mag = max(abs(v) for v in (y0, y1, x0, x1)) + 2 * sc
+        # row / column counts are ceilings of quotients: keep them away from an integer by more than the rounding of the sums
+        slack = Fraction(1, 10 ** 9) + mag / sc / 2 ** 40
+        for v in ((y1 + sc * h - y0) / (sc * h), (x1 + sc - x0) / sc, (x1 + sc - x0 + sc / 2) / sc):
+            if v != round(v) and abs(v - round(v)) < slack: return skip(op)
         A = ArrayTriangles.for_limits_and_scale(float(y0), float(y1), float(x0), float(x1), float(sc))
         idx, verts = atri_of(A)
         base = {"kind": op, "nontrivial": len(idx) >= 2, "py_ok": None}
         if op == "a_limits":
-            coq = f"(KALimits {cq(h)} {cq(y0)} {cq(y1)} {cq(x0)} {cq(x1)} {cq(sc)} {catri(idx, verts)})"
+            tl = tols_for(sc, mag)
+            coq = f"(KALimits {ctl(tl)} {cqd(h)} {cqd(y0)} {cqd(y1)} {cqd(x0)} {cqd(x1)} {cqd(sc)} {catri(idx, verts)})"
             return dict(base, coq=coq, out={"n_triangles": len(idx), "n_vertices": len(verts), "indices": idx[:12]})
         if len(idx) > 40: return {"coq": None, "out": "too large", "py_ok": None, "nontrivial": False, "kind": op + ":skipped-large"}
         sub = op[3:]
         inp2 = dict(inp)
         if sub == "for":
-            import random
             r = random.Random(inp["seed"])
             inp2["sel"] = [r.randrange(len(idx)) for _ in range(r.randint(1, 6))]
-        return array_ops(A, idx, verts, sub, inp2, False, base)
+        return array_ops(A, idx, verts, sub, inp2, base)
     if op == "c_limits":
         x0, x1, y0, y1 = [F(v) for v in inp["lims"]]; sc = F(inp["scale"])
         for v in (y0 / (h * sc), y1 / (h * sc)):      # int() of a quotient by the irrational height
             if v != 0 and abs(v - round(v)) < MARGIN: return skip(op)
         C = CoordinateArrayTriangles.for_limits_and_scale(float(x0), float(x1), float(y0), float(y1), float(sc))
         out = cs_of(C)
-        coq = f"(KCLimits {cq(h)} {cq(x0)} {cq(x1)} {cq(y0)} {cq(y1)} {cq(sc)} {ccs(out)})"
+        tl = tols_for(sc, sc)
+        coq = f"(KCLimits {ctl(tl)} {cqd(h)} {cqd(x0)} {cqd(x1)} {cqd(y0)} {cqd(y1)} {cqd(sc)} {ccs(out)})"
         return {"coq": coq, "out": {"n": len(out["coords"]), "coords": out["coords"][:10]}, "py_ok": None,
                 "nontrivial": len(out["coords"]) >= 2, "kind": op}
     if op.startswith("c_"):
         C = mk_coord(inp)
         S0 = cs_of(C)
         it = fr_tris(C.triangles)
+        keep = np.array(C.coordinates).copy()
         base = {"kind": op + ("+" + "".join(s[0] for s in inp.get("pre", [])) if inp.get("pre") else ""),
                 "nontrivial": len(S0["coords"]) >= 2, "py_ok": None}
-        if len(S0["coords"]) > 60: return {"coq": None, "out": "too large", "py_ok": None, "nontrivial": False, "kind": op + ":skipped-large"}
-        pre = f"{cq(h)} {ccs(S0)}"
-        if op == "c_tris":
-            area = frac(C.area)
-            ok = len(C) == len(S0["coords"])
-            return dict(base, coq=f"(KCTris {pre} {ctris(it)})", extra_coq=[f"(KCArea {pre} {cq(area)})"],
-                        out={"triangles": str(it)[:400], "area": str(area)}, py_ok=ok)
-        if op in ("c_up", "c_nbr", "c_for"):
-            if op == "c_up": R = C.up_sample(); k = "KCUp"; mid = ""
-            elif op == "c_nbr": R = C.neighborhood(); k = "KCNbr"; mid = ""
-            else:
-                import random
-                r = random.Random(inp["selseed"]); n = len(S0["coords"])
-                sel = [r.randrange(n) for _ in range(r.randint(0, n + 1))]
-                R = C.for_indexes(np.array(sel, dtype=int)); k = "KCFor"; mid = cnats(sel) + " "
-            ok = isinstance(R, CoordinateArrayTriangles)
-            if op == "c_up": ok = ok and len(R) == 4 * len(C) and abs(float(R.area) - float(C.area)) <= 1e-9 * max(1.0, float(C.area))
-            So = cs_of(R); ot = fr_tris(R.triangles) if len(So["coords"]) else []
-            return dict(base, coq=f"({k} {pre} {ctris(it)} {mid}{ccs(So)} {ctris(ot)})",
-                        out={"coords": So["coords"], "side": str(So["side"]), "yo": str(So["yo"]), "fl": So["fl"]}, py_ok=ok)
-        if op == "c_repr":
-            oi, ov = int_rows(C.indices), fr_pts(C.vertices)
-            W = C.with_vertices(C.vertices)
-            ok = isinstance(W, ArrayTriangles) and bool(np.array_equal(W.triangles, C.triangles))
-            return dict(base, coq=f"(KCRepr {pre} {catri(oi, ov)})", out={"indices": oi, "vertices": str(ov)[:300]}, py_ok=ok)
-        if op == "c_contain":
-            sh = shape_for(inp["shape"], it, False)
+        if len(S0["coords"]) > 60 or too_wide(S0, it):
+            return {"coq": None, "out": "too large", "py_ok": None, "nontrivial": False, "kind": op + ":skipped-large"}
+        sub = op[2:]
+        if sub == "contain":
+            sh = shape_for(inp["shape"], it, True)
             if sh is None: return skip(base["kind"])
-            out = [int(i) for i in C.containing_indices(py_shape(sh))]
-            return dict(base, coq=f"(KCContain {pre} {ctris(it)} {cshape(sh)} {cnats(out)})", out=out, shape=str(sh)[:300])
+            cases, ok, out = contain_op(C, it, sh, py_shape(sh), coord_contain_case(S0, it, sh))
+            extra = {"shape": str(sh)[:300]}
+        else:
+            arg = None
+            if sub == "for":
+                r = random.Random(inp["selseed"]); n = len(S0["coords"])
+                arg = [r.randrange(n) for _ in range(r.randint(0, n + 1))]
+            cases, ok, out, _ = coord_op(C, S0, it, sub, arg)
+            if sub == "tris":
+                c2, ok2, out2, _ = coord_op(C, S0, it, "area")
+                cases += c2; ok = ok and ok2; out = dict(out, **out2)
+            extra = {}
+        ok = ok and coord_unchanged(C, S0, keep)
+        return dict(base, coq=cases[0], extra_coq=cases[1:], out=out, py_ok=ok, **extra)
     if op == "shape_init":
-        import random
         from autoarray.structures.triangles import shape as SH
         r = random.Random(inp["seed"])
-        vs = [[Fraction(r.randint(-8, 8), 4), Fraction(r.randint(-8, 8), 4)] for _ in range(inp["nv"])]
+        sc = F(inp.get("sc", "1"))
+        vs = [[sc * Fraction(r.randint(-8, 8), 4), sc * Fraction(r.randint(-8, 8), 4)] for _ in range(inp["nv"])]
         try:
             P = SH.Polygon([(float(p[0]), float(p[1])) for p in vs])
             out = ("ok", [frac(P.x), frac(P.y)])
         except Exception as e:
             out = ("raise", exn_name(e))
-        return {"coq": f"(KShapeInit (QPolygon {clist([cpt(p) for p in vs])}) {cres(out, cpt)})", "out": str(out), "py_ok": None,
+        tl = tols_for(sc, 4 * sc)
+        return {"coq": f"(KShapeInit {ctl(tl)} (QPolygon {clist([cpt(p) for p in vs])}) {cres(out, cpt)})", "out": str(out), "py_ok": None,
                 "nontrivial": inp["nv"] >= 3, "kind": op}
     raise ValueError(op)
